@@ -365,6 +365,30 @@ example : (reach 4 .old wakeSched).lock = none ∧ ((reach 4 .old wakeSched).thr
 example : HeldBy (reach 4 .old (wakeSched ++ [.step 2])) 2 (.get false .none) 2 (some 0) [⟨0, 7⟩] := by
   constructor <;> decide
 
+/-- non-vacuity of the three "how a call ends" theorems: a plain reader with timeout 0 on an empty queue is one statement
+away from the timeout; a task reader that was asked to stop, on an empty queue, one statement away from the stop
+exception; a reader in front of a queued signal one statement away from getting it -/
+example :
+    let s := reach 2 .old ([.call 1 (.get false .zero)] ++ steps 1 4)
+    (s.thr 1).call = .get false .zero ∧ ((cstep P0 s (.step 1)).thr 1).call = .idle ∧
+      ((cstep P0 s (.step 1)).thr 1).res = some .timeout := by decide
+
+example :
+    let s := reach 2 .old ([.call 1 (.get true .none), .stop 1] ++ steps 1 4)
+    (s.thr 1).call = .get true .none ∧ ((cstep P0 s (.step 1)).thr 1).call = .idle ∧
+      ((cstep P0 s (.step 1)).thr 1).res = some .taskStop := by decide
+
+example :
+    let s := reach 2 .old ([.call 0 (.recv 7)] ++ steps 0 7 ++ [.call 1 (.get true .pos), .stop 1] ++ steps 1 2)
+    (s.thr 1).call = .get true .pos ∧ ((cstep P0 s (.step 1)).thr 1).call = .idle ∧
+      ((cstep P0 s (.step 1)).thr 1).res = some (.sig ⟨0, 7⟩) := by decide
+
+/-- non-vacuity of `conc_gap_count`: two deliverers and a discard between two reads — numbers 0 and 2 handed out, 1 lost -/
+example :
+    (reach 2 .old ([.call 0 (.recv 7)] ++ steps 0 7 ++ [.call 1 (.get false .zero)] ++ steps 1 3 ++ [.call 0 (.recv 8)] ++ steps 0 7 ++
+        [.call 2 .discard] ++ steps 2 3 ++ [.call 0 (.recv 9)] ++ steps 0 7 ++ [.call 1 (.get false .zero)] ++ steps 1 3)).g.delivered
+      = [] ++ 0 :: 2 :: [] := by decide
+
 /-- three deliverers interleaved statement by statement overrun a queue of length 1 (DISCARD_OLD) while a reader with a
 finite timeout waits: numbers 0, 1, 2 consumed, the reader is handed one of them, the rest is dropped or queued -/
 example :
